@@ -80,6 +80,10 @@ def gen_ops(rng, depth, budget, fid, npool=4):
             break
         elif r < 0.92 and depth < 4:
             ops.append(["catch", gen_ops(rng, depth + 1, budget, fid)])
+        elif r < 0.96:
+            # a push that fails in the caller's face (the classic slip: a dict instead of a Theme,
+            # or None): whatever it raises, it must leave every lookup as it was
+            ops.append(["badpush", rng.choice(["dict", "none", "use-dict"]), rng.random() < 0.5])
         else:
             ops.append(["pop"])
     return ops
@@ -184,7 +188,7 @@ class Prog:
         self.pool_maps = [self._map(t) for t in case["pool"]]
         self.viol = []
         self.probes = {"lookups": 0, "unwound_blocks": 0, "max_unwind_depth": 0, "pop_base_attempts": 0, "non_inheriting_pushes": 0,
-                       "use_theme_noninherit": 0, "config_roundtrips": 0, "live_wrapped": int(case["live"]), "missing_style_lookups": 0}
+                       "use_theme_noninherit": 0, "failed_pushes": 0, "config_roundtrips": 0, "live_wrapped": int(case["live"]), "missing_style_lookups": 0}
         self.depth_now = 0
         self.stdout_sentinel, self.stderr_sentinel = sys.stdout, sys.stderr
         sim.spawn(self.body, "c0")
@@ -332,6 +336,22 @@ class Prog:
                         self._v("propagation", "fault-identity", "a different exception object arrived at the catch block")
                     self.probes["max_unwind_depth"] = max(self.probes["max_unwind_depth"], self.raise_depth - depth)
                     self.check_all("after unwinding to a catch block")
+            elif k == "badpush":
+                self.probes["failed_pushes"] += 1
+                bogus = None if op[1] == "none" else {"info": "green", "warning": "bold"}
+                try:
+                    if op[1] == "use-dict":
+                        with con.use_theme(bogus, inherit=op[2]):
+                            pass
+                    else:
+                        con.push_theme(bogus, inherit=op[2])
+                    self._v("push", "bogus-theme-accepted", "push of %r did not raise" % (bogus,))
+                    return
+                except FAULTS:
+                    raise
+                except Exception:
+                    pass
+                self.check_all("after a push that raised")
             elif k == "pop":
                 if len(self.layers) == 1:
                     self.probes["pop_base_attempts"] += 1
